@@ -25,6 +25,10 @@ ESC = '\x1b'
 
 # ------------------------------------------------------------------------------------------- str / repr
 
+ROUTES_FOR_PRINT = ['bitarray_little', 'bitarray_little_kw', 'frozenbitarray', 'bitarray_buffer', 'memoryview_wide', 'memoryview_wide_kw', 'bytes_offset', 'bytesio_offset', 'iterable',
+                    'slice_of_longer', 'concat', 'join', 'pack_bits', 'iter_truthy']
+
+
 @st.composite
 def strrepr_case(draw, tier):
     k = draw(st.integers(0, 9))
@@ -39,7 +43,8 @@ def strrepr_case(draw, tier):
     bits = draw(bits_of_len(n))
     cls = draw(cls_st)
     return {'bits': bits, 'cls': cls, 'pos': draw(st.integers(0, n)) if cls in STREAMS and draw(st.booleans()) else 0, 'lsb0': draw(st.sampled_from([False, False, True])),
-            'file': draw(st.integers(0, 9)) == 0 and n % 8 == 0 and n > 0}
+            'file': draw(st.integers(0, 9)) == 0 and n % 8 == 0 and n > 0,
+            'route': draw(st.sampled_from(ROUTES_FOR_PRINT)) if draw(st.integers(0, 4)) == 0 else None}
 
 
 def run_strrepr(case):
@@ -51,6 +56,12 @@ def run_strrepr(case):
     with files.TempDir() as tmp:
         if case['file']:
             x = cls_of(cls)(filename=tmp.new(to_bytes(bits)))
+            if case['pos'] and cls in STREAMS:
+                x.pos = case['pos']
+        elif case.get('route'):
+            from vf.common import build_route
+            x = build_route(cls, bits, case['route'], n % 7)
+            require(x.bin == bits, 'HARNESS: route did not build the content')
             if case['pos'] and cls in STREAMS:
                 x.pos = case['pos']
         else:
@@ -284,7 +295,7 @@ def arr_case(draw, tier):
     n = draw(st.integers(0, 8))
     items = [format(draw(st.integers(0, 2 ** 72)) % (1 << dj['w']), f"0{dj['w']}b") for _ in range(n)]
     trailing = draw(bits_of_len(draw(st.integers(1, max(1, dj['w'] - 1))))) if dj['w'] > 1 and draw(st.integers(0, 2)) == 0 else ''
-    return {'dtype': dj, 'items': items, 'trailing': trailing}
+    return {'dtype': dj, 'items': items, 'trailing': trailing, 'prelude': draw(st.sampled_from([None, None, 2, 4, 0.5, 2 ** 10]))}
 
 
 def run_arr(case):
@@ -294,6 +305,17 @@ def run_arr(case):
     vals = [dt.dec(b) for b in items]
     if any(isinstance(v, float) and (math.isnan(v) or math.isinf(v)) for v in vals):
         return {'nt': False, 'labels': ['nonfinite-skipped']}
+    if case.get('prelude') is not None and dt.kind in ('uint', 'int', 'float'):
+        # something with the same dtype but a scale was printed just before: what is printed next must not depend on it
+        d0 = dt.make(bs)
+        sd = attempt(lambda: bs.Dtype(d0.name, d0.length, scale=case['prelude']))
+        if not is_raised(sd):
+            attempt(str, sd)
+            attempt(repr, sd)
+            sa = attempt(bs.Array, sd, [])
+            if not is_raised(sa):
+                rs = attempt(repr, sa)
+                require(isinstance(rs, str) and 'scale' in rs, 'repr of an Array with a scaled dtype does not show the scale', got=rs)
     a = bs.Array(dt.make(bs), [c14.value_arg(dt, b, bs) for b in items])
     if case['trailing']:
         a.data.append(mk('Bits', case['trailing']))
